@@ -2,3 +2,22 @@ import Pms.Props.C17
 
 #print axioms Pms.LocalOrder.C17_tetra_def
 #print axioms Pms.LocalOrder.C17_tetra_perfect
+#print axioms Pms.LocalOrder.C17_tetra_order_independent
+#print axioms Pms.LocalOrder.C17_tetra_four_nearest
+#print axioms Pms.LocalOrder.C17_tetra_local
+#print axioms Pms.LocalOrder.C17_tetra_le_one
+#print axioms Pms.LocalOrder.C17_s2_g_def
+#print axioms Pms.LocalOrder.C17_s2_def
+#print axioms Pms.LocalOrder.C17_trapz_affine
+#print axioms Pms.LocalOrder.C17_trapz_uniform
+#print axioms Pms.LocalOrder.C17_nematic_tensor_raw
+#print axioms Pms.LocalOrder.C17_nematic_cg_def
+#print axioms Pms.LocalOrder.C17_nematic_tensor
+#print axioms Pms.LocalOrder.C17_nematic_2d
+#print axioms Pms.LocalOrder.C17_nematic_2d_scalar
+#print axioms Pms.LocalOrder.C17_gyration_def
+#print axioms Pms.LocalOrder.C17_gyration_translation
+#print axioms Pms.LocalOrder.C17_gyration_trace
+#print axioms Pms.LocalOrder.C17_gyration_descriptors
+#print axioms Pms.LocalOrder.C17_gyration_bounds
+#print axioms Pms.LocalOrder.C17_gyration_2d
